@@ -451,33 +451,76 @@ def _run_ok(cs: Classes, name: str) -> bool:
 
 # ------------------------------------------------------------------------------------------------ software manager
 def class_map_writers() -> List[str]:
-    """statements that add a key to `_software_class_to_name_map` (subscript assignment, update, setdefault)"""
+    """statements that add a key to `_software_class_to_name_map` (subscript assignment, update, setdefault), as
+    `<file>:<function>:<statement>` (no line numbers: they move with unrelated edits)"""
     out = []
     for f in sorted(SRC.rglob("*.py")):
         src = f.read_text()
         if "_software_class_to_name_map" not in src:
             continue
-        for n in ast.walk(ast.parse(src)):
+        tree = ast.parse(src)
+        owner = {}
+        for fn in ast.walk(tree):
+            if isinstance(fn, (ast.FunctionDef, ast.AsyncFunctionDef)):
+                for n in ast.walk(fn):
+                    owner.setdefault(id(n), fn.name)
+        for n in ast.walk(tree):
             if isinstance(n, (ast.Assign, ast.AugAssign, ast.AnnAssign)):
                 tgts = n.targets if isinstance(n, ast.Assign) else [n.target]
                 for t in tgts:
                     if isinstance(t, ast.Subscript) and "_software_class_to_name_map" in ast.unparse(t.value):
-                        out.append(f"{f.relative_to(SRC)}:{n.lineno}")
+                        out.append(f"{f.relative_to(SRC)}:{owner.get(id(n), '?')}:{ast.unparse(n)}")
             if isinstance(n, ast.Call) and re.search(r"_software_class_to_name_map\.(update|setdefault|__setitem__)$", ast.unparse(n.func)):
-                out.append(f"{f.relative_to(SRC)}:{n.lineno}")
+                out.append(f"{f.relative_to(SRC)}:{owner.get(id(n), '?')}:{ast.unparse(n)}")
     return out
+
+
+def install_guard() -> str:
+    """the test of the `if …: log; return` that opens `SoftwareManager.install` ("" when install has no such statement)"""
+    fn = find_method(class_def(parse(SM), "SoftwareManager"), "install")
+    b = body_no_doc(fn)
+    if b and isinstance(b[0], ast.If) and not b[0].orelse and \
+            all(is_log(x) or (isinstance(x, ast.Return) and x.value is None) for x in b[0].body) and \
+            any(isinstance(x, ast.Return) for x in b[0].body):
+        return ast.unparse(b[0].test)
+    return ""
+
+
+def uninstall_cleanup() -> Tuple[bool, bool]:
+    """`uninstall` removes (a) the first port-table entry whose owner carries the uninstalled name, (b) the first class-map
+    entry whose value is the uninstalled name — both as `for k, v in d.items(): if <test>: d.pop(k); break`"""
+    fn = find_method(class_def(parse(SM), "SoftwareManager"), "uninstall")
+
+    def has(dname: str, test: str) -> bool:
+        for st in fn.body:
+            if isinstance(st, ast.For) and ast.unparse(st.iter) == f"self.{dname}.items()" and ast.unparse(st.target) == "(key, value)" \
+                    and len(st.body) == 1 and isinstance(st.body[0], ast.If) and not st.body[0].orelse and not st.orelse:
+                inner = st.body[0]
+                if ast.unparse(inner.test) == test and [ast.unparse(x) for x in inner.body] == [f"self.{dname}.pop(key)", "break"]:
+                    return True
+        return False
+    return has("port_protocol_mapping", "value.name == software_name"), has("_software_class_to_name_map", "value == software_name")
 
 
 def install_order() -> List[str]:
     """the registry writes of SoftwareManager.install in source order"""
     fn = find_method(class_def(parse(SM), "SoftwareManager"), "install")
     order = []
+    b = body_no_doc(fn)
+    for st in b:
+        # `if software.name in self.software: log; self.uninstall(software.name)` — the installed instance of that name is evicted
+        if isinstance(st, ast.If) and ast.unparse(st.test) == "software.name in self.software":
+            rest = [x for x in st.body if not is_log(x)]
+            if st.orelse or [ast.unparse(x) for x in rest] != ["self.uninstall(software.name)"]:
+                raise ValueError("install: unrecognised handling of an installed name")
+            order.append((st.lineno, "evict"))
     marks = [("self.node.applications[software.uuid] = software", "applications"),
              ("self.node._application_request_manager.add_request(", "appRoute"),
              ("self.node.services[software.uuid] = software", "services"),
              ("self.node._service_request_manager.add_request(", "svcRoute"),
              ("software.start()", "start"), ("software.install()", "install"),
              ("self.software[software.name] = software", "software"),
+             ("self._software_class_to_name_map[software_class] = software.name", "classMap"),
              ("self.port_protocol_mapping[software.port, software.protocol] = software", "portMap"),
              ("software.operating_state = ApplicationOperatingState.CLOSED", "forceClosed")]
     for st in ast.walk(fn):
@@ -602,6 +645,12 @@ def emit() -> str:
     L.append("")
     L.append("/-- source locations that add a key to `SoftwareManager._software_class_to_name_map` -/")
     L.append("def classMapWriters : List String := [" + ", ".join(f'"{w}"' for w in class_map_writers()) + "]")
+    L.append("/-- the test of the `if …: return` that opens `SoftwareManager.install` -/")
+    L.append(f'def installGuard : String := "{install_guard()}"')
+    pm_ok, cm_ok = uninstall_cleanup()
+    L.append("/-- `uninstall` pops the first port-table entry owned by the uninstalled name / the first class-map entry naming it -/")
+    L.append(f"def uninstallPopsPortEntryOfOwner : Bool := {str(pm_ok).lower()}")
+    L.append(f"def uninstallPopsClassMapEntry : Bool := {str(cm_ok).lower()}")
     L.append("/-- registry writes of `SoftwareManager.install` in source order -/")
     L.append("def installOrder : List String := [" + ", ".join(f'"{w}"' for w in install_order()) + "]")
     L.append(f"def openPortsFromRunningPortMapOwners : Bool := {str(open_ports_shape()).lower()}")
